@@ -266,7 +266,7 @@ mat5_read_header (SF_PRIVATE *psf)
 
 	psf_binheader_readf (psf, "pb", 0, buffer, 124) ;
 
-	buffer [125] = 0 ;
+	buffer [124] = 0 ;
 
 	if (strlen (buffer) >= 124)
 		return SFE_UNIMPLEMENTED ;
